@@ -3,6 +3,7 @@
 D="$1"; OUT="$2"
 W=/tmp/vw_$$_$RANDOM
 git -C /repo worktree add -q --detach $W HEAD || exit 3
+mkdir -p $W/.tmp; export TMPDIR=$W/.tmp   # the suite leaves ~100 MB of plots per run in $TMPDIR: they go away with the worktree
 cd $W
 {
 if ! git apply "$D/patch.diff"; then echo "PATCH-DOES-NOT-APPLY"; else
